@@ -342,7 +342,7 @@ pub fn generate(seed: u64, focus: &str, _tier: Tier) -> AgentScenario {
         peers,
         store_fault,
         ending,
-        max_steps: 30_000,
+        max_steps: 60_000,
     }
 }
 
